@@ -227,6 +227,27 @@ pub fn rand_orth(rng: &mut Rng, n: usize) -> Mat {
 /// m×n matrix with orthonormal columns (m >= n).
 pub fn rand_orth_cols(rng: &mut Rng, m: usize, n: usize) -> Mat {
     assert!(m >= n);
+    if m > 400 {
+        // tall case of the `large` families: Gram–Schmidt (twice) on a Gaussian m×n block, O(m·n²) instead of O(m³)
+        let mut q = Mat::randn(rng, m, n);
+        for j in 0..n {
+            for _pass in 0..2 {
+                for k in 0..j {
+                    let d = csum((0..m).map(|i| q.at(i, k) * q.at(i, j)));
+                    for i in 0..m {
+                        let v = q.at(i, j) - d * q.at(i, k);
+                        q.set(i, j, v);
+                    }
+                }
+            }
+            let nrm = csum((0..m).map(|i| q.at(i, j) * q.at(i, j))).sqrt();
+            for i in 0..m {
+                let v = q.at(i, j) / nrm;
+                q.set(i, j, v);
+            }
+        }
+        return q;
+    }
     let q = rand_orth(rng, m);
     q.slice(0, m, 0, n)
 }
